@@ -55,7 +55,7 @@ const CRIT: [Option<&[&str]>; 10] = [
   Some(&["b64", "exp"]),
   Some(&["kid"]),
 ];
-const CRIT_QUICK: usize = 7;
+const CRIT_QUICK: usize = 8;
 
 /// Further registered members (name, JSON value text). `jwk` is filled in at run time.
 const REG: [(&str, &str); 10] = [
@@ -589,6 +589,7 @@ const SMUGGLE: [(&str, &str, &str); 4] = [
 
 /// Judge an encoder constructor: `why` = violated rules (empty = must accept); `open` = not judged.
 fn judge_enc(ctx: &Ctx, acc: &mut Acc, case: &Case, ep: &str, why: &[&'static str], open: bool, res: Result<Result<(), Error>, vx::Panicked>) {
+  let open = open && why.is_empty();
   match res {
     Err(pn) => ctx.violation(&format!("{ep}|{}", pn.key()), &pn.msg, case),
     Ok(Ok(())) => {
@@ -600,6 +601,9 @@ fn judge_enc(ctx: &Ctx, acc: &mut Acc, case: &Case, ep: &str, why: &[&'static st
     Ok(Err(e)) => {
       let label = err_label(&e);
       acc.out(format!("{ep}:reject{}:{label}", if open { "(open)" } else { "" }));
+      if open && std::env::var_os("C11_DEBUG").is_some() {
+        eprintln!("OPEN-REJECT {label} {}", serde_json::to_string(case).unwrap());
+      }
       if non_policy(&e) {
         acc.nonpolicy.push(format!("{ep}: non-policy error {label}: {case:?}"));
       }
